@@ -573,10 +573,16 @@ def correspond(ctx):
                 "EventCharacteristics object, histories of compute / in-place mutation of the held Lattice3D (reset, set_value*, "
                 "rescale, add_particle_data, add_same_spaced_grid, arithmetic result assigned, grid_ +=) or particle list "
                 "(setters, replace, append, pop, reverse; list and ndarray containers) / set_event_data switching the input, "
-                "(n, m, weight_quantity) varying per call; every call compared on the content held at that moment")
+                "(n, m, weight_quantity) varying per call; every call compared on the content held at that moment.  "
+                "Every case is evaluated by the hand model (ops p / l) AND by the functions generated from the current "
+                "source (ops gp / gl, the weight string handed to the generated if-chain as it is); both must agree with the code")
     ctx.assumptions.append("C18: np.arctan2/np.cos/np.sin/float ** are compared with C libm atan2/cos/sin/pow at 1e-9 "
                            "(times the condition number sum|a|/|sum a|); theorems use exact real functions")
     ctx.assumptions.append("C18: particles with unset (NaN) attributes are outside the property and not generated")
+    ctx.assumptions.append("C18 tie T: harness/translate/ecc.py renders eccentricity_from_particles / eccentricity_from_lattice "
+                           "(guards, weight chain, radial factor, trig, accumulators, final quotient) faithfully; the Lattice3D "
+                           "accessors (grid_.shape, np.ndindex order, get_coordinates, get_value_by_index), the typed reading of the "
+                           "arguments (n an int, data a list resp. a lattice) and 'divisor zero -> zerodiv' stay contracts of the hand model")
     ncases = ctx.n(400, 12000)
     lines, meta = [], []
     for i in range(ncases):
